@@ -210,7 +210,10 @@ def main():
         if changed_fns and srcmap.boost_for(opname, changed_fns):
             n *= 4
         try:
-            r = corr.correspond(opname, n * factor, seed)
+            corpus = corr.exhaustive_inputs(opname) if tier == "thorough" else None
+            if corpus:
+                cov.setdefault("exhaustive_small_scope", {})[opname] = len(corpus)
+            r = corr.correspond(opname, n * factor, seed, corpus=corpus)
         except Exception as e:
             broken_tie.append({"kind": "correspondence-crash", "op": opname, "detail": f"{type(e).__name__}: {str(e)[-500:]}"})
             continue
@@ -280,6 +283,14 @@ def main():
     }
     if "exhaustive_part" in cov:
         ev["coverage"]["exhaustive_part"] = cov["exhaustive_part"]
+    if "exhaustive_small_scope" in cov:
+        ev["coverage"]["exhaustive_small_scope"] = cov["exhaustive_small_scope"]
+    if tier == "thorough" and thms:
+        # independent re-check of the compiled theorem file and everything it depends on
+        rc, out = sh(f"timeout 2400 coqchk -silent -o -Q Gen Gen -Q Model Model -Q Proofs Proofs -Q Props Props Props.{prop}", cwd=COQ, timeout=2500)
+        ev["coverage"]["coqchk"] = " ".join(out.split())[-600:]
+        if rc != 0:
+            log(f"coqchk failed for Props.{prop}")
     os.makedirs(os.path.join(VERIF, "evidence"), exist_ok=True)
     with open(os.path.join(VERIF, "evidence", f"{prop}.json"), "w") as f:
         json.dump(ev, f, indent=1, default=str)
